@@ -313,6 +313,9 @@ SyntaxVisitor::Action DeclarationBinder::visitArrayOrFunctionDeclarator(const Ar
 
 SyntaxVisitor::Action DeclarationBinder::visitSubscriptSuffix(const SubscriptSuffixSyntax* node)
 {
+    // The size expression may name objects (a variable length array): their uses need a scope.
+    VISIT(node->expression());
+
     return Action::Skip;
 }
 
